@@ -184,6 +184,7 @@ def run(tier, seed, replay=None):
     reader_common.wiring(ck, mod)
     reader_common.vector_raw(ck, mod)
     reader_common.read_cache_contract(ck, pyload.module("digital_rf_hdf5", symbolic=False))
+    reader_common.vector_conversion(ck, pyload.module("digital_rf_hdf5", symbolic=False))
     ck.replayers["reader."] = replay_reader
     from checks import filelist_common
     filelist_common.file_list_contract(ck, mod, ((1, 1000), (1, 500), (2, 1000), (3, 1000), (4, 2000)) if tier == "thorough" else ((1, 1000), (1, 500), (2, 1000)))
